@@ -219,7 +219,9 @@ def check_case(ctx, case):
     out = ReconciliationOutput(inp, {byid_g[v]: byid_s[s] for v, s in m.items()})
     roundtrip(ctx, case, out, models)
     syn = case["syn"]
-    sinp = SuperReconciliationInput(gt, LowestCommonAncestor(st), lm, costs, {gnode[g]: list(f) for g, f in syn.items()})
+    # leaf syntenies handed over as lists or as tuples (both are ordered sequences of families)
+    conv = tuple if case["rseed"] % 3 == 0 else list
+    sinp = SuperReconciliationInput(gt, LowestCommonAncestor(st), lm, costs, {gnode[g]: conv(f) for g, f in syn.items()})
     roundtrip(ctx, case, sinp, models)
     # valid ordered and unordered labellings
     class FakeB:
